@@ -33,14 +33,16 @@ func AddHeaders(
 }
 
 // AddTrailers adds all header values in src to dest, but
-// it prefixes each header name with http.TrailerPrefix.
+// it prefixes each header name with http.TrailerPrefix. Like
+// AddHeaders, it treats names that differ only in case as the
+// same name (the prefixed key is not canonicalized by dest.Add).
 func AddTrailers(
 	src []*conformancev1.Header,
 	dest http.Header,
 ) {
 	for _, header := range src {
 		for _, val := range header.Value {
-			dest.Add(http.TrailerPrefix+header.Name, val)
+			dest.Add(http.TrailerPrefix+http.CanonicalHeaderKey(header.Name), val)
 		}
 	}
 }
